@@ -83,6 +83,20 @@ def gateStep (allowText dropUnsupported : Bool) : DocM Unit :=
   checkpicosvg allowText dropUnsupported >>= fun viol =>
     if !viol.isEmpty then fail .valueError else pure ()
 
+/-- the closing loop of `topicosvg`: prune, drop orphaned gradients, flatten underfull groups, round; repeated
+    while a round pruned something.  `fuel` bounds the number of rounds (each non-final round removes a shape,
+    so #shapes + 1 rounds always suffice); running out is a RecursionError like every other fuelled loop. -/
+def pruneLoop (ndigits : Int) : Nat → DocM Unit
+  | 0 => fail .recursionError
+  | fuel + 1 => do
+    let before ← elements
+    removeUnpaintedShapes
+    removeOrphansAfterPruning
+    flattenGroups
+    roundFloats ndigits
+    let after ← elements
+    if (after.map (·.2.length)).sum == (before.map (·.2.length)).sum then pure () else pruneLoop ndigits fuel
+
 /-- everything `topicosvg` does before the gate -/
 def convertSteps (ndigits : Int) (noneGood : Bool) : DocM Unit := do
   updateEtree
@@ -101,10 +115,8 @@ def convertSteps (ndigits : Int) (noneGood : Bool) : DocM Unit := do
   absolute
   roundFloats ndigits
   removeEmptySubpaths
-  removeUnpaintedShapes
-  removeOrphansAfterPruning
-  flattenGroups
-  roundFloats ndigits
+  let l ← elements
+  pruneLoop ndigits (l.length + 2)
 
 /-- `topicosvg(ndigits, inplace=True, allow_text, drop_unsupported)`; ValueError when the gate
     reports violations -/
